@@ -519,6 +519,7 @@ func run(r *evid.Run) {
 
 	archives(r, paths, scratch)
 	histories(r, scratch)
+	gitCloneLinks(r, scratch)
 	pluginNames(r, paths)
 	constructors(r, paths)
 	rootSpellings(r, paths, scratch)
